@@ -104,6 +104,19 @@ pub fn c04(g: &mut Gen) {
         for v in [0u64, top, top / 3, 1] { for i in [0u64, 1, 20, 40, 41] { lines.push(format!("wm A rank {} {}", i, v)); lines.push(format!("wm A select {} {}", i, v)); } lines.push(format!("wm A contains {}", v)); }
         g.group(lines);
     }
+    // a matrix of more than 2^20 items (every level has more than 2048 rank samples and more than 2^14 data words), built,
+    // written, loaded back and queried in the upper half of the positions.  Thorough scale only (about 20 s in the driver).
+    if g.thorough {
+        let n: u64 = 1_150_000;
+        let vals: Vec<u64> = (0..n).map(|i| (i.wrapping_mul(2654435761) >> 7) % 8).collect();
+        let mut lines = vec![format!("wm A from u8 {}", vals_str(&vals)), "ser reload A B extra=0".to_string(), "wm B len".to_string(), "wm B width".to_string()];
+        for i in [0u64, 4095, 4096, 262_144, 524_287, 524_288, 524_289, 800_000, 1_048_575, 1_048_576, 1_048_577, 1_100_000, n - 1, n] {
+            if i < n { lines.push(format!("wm B get {}", i)); lines.push(format!("wm B invsel {}", i)); }
+            for v in [0u64, 3, 7, 8] { lines.push(format!("wm B rank {} {}", i, v)); lines.push(format!("wm B pred {} {}", i, v)); lines.push(format!("wm B succ {} {}", i, v)); }
+        }
+        for v in [0u64, 5, 7] { for r in [0u64, 1, 70_000, 131_071, 131_072, 140_000, 143_000] { lines.push(format!("wm B select {} {}", r, v)); } }
+        g.group(lines);
+    }
 }
 
 pub fn c09_wm(g: &mut Gen) {
